@@ -23,12 +23,59 @@ META = {
 SL = "slurm::"
 
 
-def table_of(paths):
+def _split_args(s):
+    """Top-level comma-separated parts of an argument list text."""
+    parts, depth, cur = [], 0, ""
+    for ch in s:
+        if ch in "([{":
+            depth += 1
+        elif ch in ")]}":
+            depth -= 1
+        if ch == "," and depth == 0:
+            parts.append(cur.strip())
+            cur = ""
+        else:
+            cur += ch
+    if cur.strip():
+        parts.append(cur.strip())
+    return parts
+
+
+def canon_eq(s):
+    """`T::eq(a, b)` (PartialEq::eq of two values of one type) is symmetric: write its operands in sorted order, so that
+    `a == b` and `b == a` read the same.  Nothing else is reordered — `covers(a, b)` keeps its argument order."""
+    out = ""
+    i = 0
+    while True:
+        m = re.search(r"\b([\w:]+)::(eq|ne)\(", s[i:])
+        if not m:
+            return out + s[i:]
+        start = i + m.end()
+        depth, j = 1, start
+        while j < len(s) and depth:
+            depth += s[j] in "([{"
+            depth -= s[j] in ")]}"
+            j += 1
+        args = [canon_eq(a) for a in _split_args(s[start:j - 1])]
+        if len(args) == 2:
+            args.sort()
+        out += s[i:i + m.start()] + "%s::%s(%s)" % (m.group(1), m.group(2), ", ".join(args))
+        i = j
+
+
+def table_of(paths, body=None):
+    """The case table of a decision function: parameter names do not matter (α-normalised when the body is given) and
+    equality tests are read as unordered."""
+    nm = (lambda x: canon_eq(K.alpha(x, body))) if body is not None else canon_eq
     out = set()
     for p in paths:
-        conds = tuple(sorted(c[0] for c in p.conds))
-        out.add((conds, p.zone.describe(), outcome_str(p.outcome)))
+        conds = tuple(sorted(nm(c[0]) for c in p.conds))
+        out.add((conds, nm(p.zone.describe()), nm(outcome_str(p.outcome))))
     return out
+
+
+def spec_table(rows):
+    return {(tuple(sorted(canon_eq(c) for c in conds)), canon_eq(z), canon_eq(o)) for conds, z, o in rows}
 
 
 def run(ctx):
@@ -46,8 +93,9 @@ def run(ctx):
     check_covers_family(ctx, f)
 
     # ---- C15.b decision tables ---------------------------------------------------
-    cov = "Prefix::covers(self.prefix↓Some.0, MaxLenPrefix::prefix(origin.prefix))"
-    aeq = "Asn::eq(self.asn↓Some.0, origin.asn)"
+    # %2 is the function's second parameter (the origin / router key / ASPA / payload item), whatever it is called
+    cov = "Prefix::covers(self.prefix↓Some.0, MaxLenPrefix::prefix(%2.prefix))"
+    aeq = "Asn::eq(self.asn↓Some.0, %2.asn)"
     specs = {
         SL + "PrefixFilter::drop_origin": {
             (("self.asn is Some", "self.prefix is Some"), cov + "∈[1,1]", "return " + aeq),
@@ -57,27 +105,27 @@ def run(ctx):
             (("self.asn is None", "self.prefix is None"), "", "return 0"),
         },
         SL + "BgpsecFilter::drop_router_key": {
-            (("self.asn is Some", "self.ski is Some"), "KeyIdentifier::eq(self.ski↓Some.0, key.key_identifier)∈[1,1]", "return Asn::eq(self.asn↓Some.0, key.asn)"),
-            (("self.asn is Some", "self.ski is Some"), "KeyIdentifier::eq(self.ski↓Some.0, key.key_identifier)∈[0,0]", "return 0"),
-            (("self.asn is None", "self.ski is Some"), "", "return KeyIdentifier::eq(self.ski↓Some.0, key.key_identifier)"),
-            (("self.asn is Some", "self.ski is None"), "", "return Asn::eq(self.asn↓Some.0, key.asn)"),
+            (("self.asn is Some", "self.ski is Some"), "KeyIdentifier::eq(self.ski↓Some.0, %2.key_identifier)∈[1,1]", "return Asn::eq(self.asn↓Some.0, %2.asn)"),
+            (("self.asn is Some", "self.ski is Some"), "KeyIdentifier::eq(self.ski↓Some.0, %2.key_identifier)∈[0,0]", "return 0"),
+            (("self.asn is None", "self.ski is Some"), "", "return KeyIdentifier::eq(self.ski↓Some.0, %2.key_identifier)"),
+            (("self.asn is Some", "self.ski is None"), "", "return Asn::eq(self.asn↓Some.0, %2.asn)"),
             (("self.asn is None", "self.ski is None"), "", "return 0"),
         },
         SL + "AspaFilter::drop_aspa": {
-            (("self.customer_asid is Some",), "", "return Asn::eq(self.customer_asid↓Some.0, aspa.customer)"),
+            (("self.customer_asid is Some",), "", "return Asn::eq(self.customer_asid↓Some.0, %2.customer)"),
             (("self.customer_asid is None",), "", "return 0"),
         },
         SL + "PrefixFilter::drop_payload": {
-            (("payload is Origin",), "", "return PrefixFilter::drop_origin(self, payload↓Origin.0)"),
-            (("payload is another variant",), "", "return 0"),
+            (("%2 is Origin",), "", "return PrefixFilter::drop_origin(self, %2↓Origin.0)"),
+            (("%2 is another variant",), "", "return 0"),
         },
         SL + "BgpsecFilter::drop_payload": {
-            (("payload is RouterKey",), "", "return BgpsecFilter::drop_router_key(self, payload↓RouterKey.0)"),
-            (("payload is another variant",), "", "return 0"),
+            (("%2 is RouterKey",), "", "return BgpsecFilter::drop_router_key(self, %2↓RouterKey.0)"),
+            (("%2 is another variant",), "", "return 0"),
         },
         SL + "AspaFilter::drop_payload": {
-            (("payload is Aspa",), "", "return AspaFilter::drop_aspa(self, payload↓Aspa.0)"),
-            (("payload is another variant",), "", "return 0"),
+            (("%2 is Aspa",), "", "return AspaFilter::drop_aspa(self, %2↓Aspa.0)"),
+            (("%2 is another variant",), "", "return 0"),
         },
     }
     for fn, want in specs.items():
@@ -90,7 +138,8 @@ def run(ctx):
         if paths is None:
             ctx.ob("R-REG", short(fn) + ":analysable", False, "cannot establish: " + err, where=b.loc)
             continue
-        got = table_of(paths)
+        got = table_of(paths, b)
+        want = spec_table(want)
         ctx.ob("R-REG", short(fn) + ":table", got == want and not it.imprecise,
                "%s has exactly the specified case table (%d rows)" % (short(fn), len(want)), where=b.loc,
                detail={"unexpected_rows": sorted(map(list, got - want)), "missing_rows": sorted(map(list, want - got)),
